@@ -664,13 +664,18 @@ func (c14) Run(ctx *Ctx, ci interface{}) (o Outcome) {
 			o.Add("pssm_columns_checked", int64(L))
 			// the other count-based normalisations, with pseudo-counts and log2 scale, from their documentation:
 			// none = count + pc; freq = (count + pc) / (n + |A| pc); unif = freq * |A|
-			for _, norm := range []int{align.PSSM_NORM_NONE, align.PSSM_NORM_FREQ, align.PSSM_NORM_UNIF} {
+			// data = freq divided by the frequency of the character among the alphabet characters of the whole alignment
+			dataTotal := 0.0
+			for ri := 0; ri < len(rows); ri++ {
+				dataTotal += float64(total[rows[ri]])
+			}
+			for _, norm := range []int{align.PSSM_NORM_NONE, align.PSSM_NORM_FREQ, align.PSSM_NORM_UNIF, align.PSSM_NORM_DATA} {
 				for _, lg := range []bool{false, true} {
 					for _, pc := range []float64{0, 0.5} {
 						k2 := fmt.Sprintf("Pssm(log=%v,pseudo=%v,norm=%d)", lg, pc, norm)
 						fl := s0.floats[k2]
-						if len(fl) != len(rows)*L {
-							continue
+						if len(fl) != len(rows)*L || !strings.HasSuffix(s0.disc[k2+".rows"], "<nil>") {
+							continue // the normalisation reports an error (a character of the alphabet that the data do not hold)
 						}
 						nA := float64(len(rows))
 						for ri := 0; ri < len(rows); ri++ {
@@ -687,6 +692,8 @@ func (c14) Run(ctx *Ctx, ci interface{}) (o Outcome) {
 									want /= float64(n) + nA*pc
 								case align.PSSM_NORM_UNIF:
 									want = want / (float64(n) + nA*pc) * nA
+								case align.PSSM_NORM_DATA:
+									want = want / (float64(n) + nA*pc) / (float64(total[rows[ri]]) / dataTotal)
 								}
 								if lg {
 									want = math.Log(want) / math.Log(2)
